@@ -1063,7 +1063,24 @@ class Ctx:
         return self.new_list(out)
 
     def ex_GeneratorExp(self, e, fr):
-        return self.ex_ListComp(e, fr)
+        if self.spec_mode:
+            return self.ex_ListComp(e, fr)   # specifications are pure: laziness is unobservable
+        cf = self.comp_frame(fr)
+        first = e.generators[0]
+        it0 = self.iterate(self.eval(first.iter, fr))   # the outermost iterable is evaluated when the generator is created
+
+        def thunk():
+            out = []
+
+            def rest():
+                self.comp_iter(e.generators, cf, 1, lambda: out.append(self.eval(e.elt, cf)))
+            for v in it0:
+                self.tick()
+                self.assign(first.target, v, cf)
+                if all(self.truthy(self.eval(c, cf)) for c in first.ifs):
+                    rest()
+            return out
+        return self.alloc(HGen(thunk))
 
     def ex_SetComp(self, e, fr):
         out = set()
